@@ -37,6 +37,9 @@ const LJ_READ: Shape = L21_READ.with_conf(&[1, 2, 3], &[1, 3, 4], &[], &[], fals
 const LL_READ: Shape = L21_READ.with_conf(&[1, 2, 3], &[], &[4], &[], false).with_peers(&[PeerShape::replicate(2, 4, 0).matched(3), PeerShape::replicate(3, 4, 0).matched(3), PeerShape::replicate(4, 4, 0).matched(3)]);
 const S1_READ_OLD: Shape = Shape::follower3(3, 0).with_role(StateRole::Leader).with_conf(&[1], &[], &[], &[], false).with_terms(&[1, 2, 5]).with_term(5).with_commit(2).with_applied(2).with_persisted(3).with_flags(false, false, false);
 const S1_READ: Shape = S1_READ_OLD.with_commit(3);
+const N2_A: Shape = Shape::follower3(3, 0).with_terms(&[1, 2, 3]).with_term(5).with_commit(3).with_applied(3).with_persisted(3).with_flags(false, false, false);
+const N2_B: Shape = Shape::follower3(2, 0).with_terms(&[1, 2]).with_term(5).with_commit(2).with_applied(2).with_persisted(2).with_flags(false, false, false);
+const N2_B_AHEAD: Shape = Shape::follower3(3, 1).with_terms(&[1, 2, 3, 4]).with_term(5).with_commit(2).with_applied(2).with_persisted(3).with_flags(false, false, false);
 const CAND3: Shape = Shape::follower3(3, 0).with_role(StateRole::Candidate).with_term(5).with_terms(&[1, 2, 3]).with_commit(1).with_votes(&[(1, true)]);
 const PRE3: Shape = Shape::follower3(3, 0).with_role(StateRole::PreCandidate).with_term(5).with_terms(&[1, 2, 3]).with_commit(1).with_votes(&[(1, true)]);
 const CAND5: Shape = CAND3.with_conf(&[1, 2, 3, 4, 5], &[], &[], &[], false);
@@ -292,6 +295,15 @@ harnesses! {
     { prevoteresp_reject_higher, "C16,C03", quick, unwind = 8,
       "pre-candidate receives a rejection carrying a higher term -> follower at that term (the only way its term rises without winning)",
       |s| c02::voteresp_step(s, &PRE3, 2, true, true, 7) }
+    { two_node_election, "C02,C03,C05,C01", quick, unwind = 8,
+      "[2N] two real nodes: A (log [1,2,3]) campaigns, its real vote request is stepped into B (log [1,2], symbolic vote / leader), B's real response into A, A's first append into B: grant only if A is up to date, A leads only with the grant, one leader per term, B's log equals A's below the acknowledged index",
+      |s| c02::two_node_election(s, &N2_A, &N2_B, false, false) }
+    { two_node_election_behind, "C02,C03", quick, unwind = 8,
+      "[2N] same with B's log ahead of A's: B must refuse and A must not become leader",
+      |s| c02::two_node_election(s, &N2_A, &N2_B_AHEAD, true, false) }
+    { two_node_transfer, "C17,C02,C03", quick, unwind = 8,
+      "[2N] leadership transfer completion: A receives MsgTimeoutNow, campaigns with the transfer context, B grants, A leads the higher term holding every entry B has",
+      |s| c02::two_node_election(s, &N2_A, &N2_B, false, true) }
     // ---------------- leader: append responses (C04 / C13 / C10 / C17) ----------------
     { appresp_ack_probe, "C04,C13,C10,C17,C05,C01,C20", quick, unwind = 8,
       "leader (3 voters, log 2 stable + 1 unstable, symbolic terms/commit/persisted/flags) receives an ack of index 2 from peer 2 in Probe state (matched 1, next 3): becomes Replicate, commit rule checked against a quorum oracle, emitted appends well-formed",
